@@ -55,6 +55,11 @@ type Pkg struct {
 	// DocTags: generator names g for which the package's file doc (doc.go) carries "+gengo:<g>", i.e. the generator is
 	// enabled for every type of THIS package.
 	DocTags []string `json:"doc_tags,omitempty"`
+	// GoImports / Decls: further top-level declarations of the package (functions, methods, error types ...), written
+	// verbatim after the types, and the import paths they need, imported under their own names (the packages listed in
+	// Imports are imported under an alias as well; the declarations must use every path of GoImports).  probe.go.
+	GoImports []string `json:"go_imports,omitempty"`
+	Decls     []string `json:"decls,omitempty"`
 }
 
 type File struct {
@@ -75,11 +80,12 @@ type Module struct {
 	// (multimod.go).  Their files are part of the snapshotted tree (paths relative to THIS module's root).
 	Ext []ExtMod `json:"ext,omitempty"`
 	// Work: the modules (this one and every Ext) are members of a go.work workspace (workspace.go): "root" = go.work in
-	// this module's root (use . ./api ../mkit), "parent" = go.work in the directory above it (use ./m ./m/api ./mkit).
+	// this module's root (use . ./api ../mkit), "parent" = go.work in the directory above it (use ./m ./m/api ./mkit),
+	// "auto" (JSON also: true) = above it iff some member is a sibling "../x", and no require lines (C05's two-module runs).
 	// WorkOnly: the go.mod of this module has NO require / replace lines for the other members (the workspace alone
 	// resolves the imports).  The child process then runs without GOFLAGS=-mod=mod (rejected in workspace mode).
-	Work     string `json:"work,omitempty"`
-	WorkOnly bool   `json:"work_only,omitempty"`
+	Work     WorkMode `json:"work,omitempty"`
+	WorkOnly bool     `json:"work_only,omitempty"`
 }
 
 func (m *Module) PkgPath(dir string) string {
@@ -97,6 +103,9 @@ func (m *Module) source(p Pkg) string {
 	}
 	for i, im := range p.XImports {
 		fmt.Fprintf(&b, "\nimport x%d %q\n", i, im)
+	}
+	for _, im := range p.GoImports {
+		fmt.Fprintf(&b, "\nimport %q\n", im)
 	}
 	for _, im := range p.Imports {
 		fmt.Fprintf(&b, "\nvar _ = %s.Anchor\n", "i"+strings.ReplaceAll(im, "/", "_"))
@@ -119,6 +128,9 @@ func (m *Module) source(p Pkg) string {
 			fmt.Fprintf(&b, "type %s struct{ F int }\n", t.Name)
 		}
 	}
+	for _, d := range p.Decls {
+		b.WriteString("\n" + d + "\n")
+	}
 	return b.String()
 }
 
@@ -135,11 +147,7 @@ func (m *Module) Materialise(root string) error {
 	if gv == "" {
 		gv = "1.22"
 	}
-	req := m.requireBlock()
-	if m.Work != "" && m.WorkOnly {
-		req = ""
-	}
-	if err := write("go.mod", fmt.Sprintf("module %s\n\ngo %s\n", m.ModPath, gv)+req); err != nil {
+	if err := write("go.mod", fmt.Sprintf("module %s\n\ngo %s\n", m.ModPath, gv)+m.requireBlock()); err != nil {
 		return err
 	}
 	if err := m.writeWork(root); err != nil {
@@ -213,7 +221,11 @@ type Step struct {
 	Use    []string `json:"use,omitempty"`    // also render references "<pkgpath>.<Name>" through the import tracker (not modelled: Go-side checks only)
 	// DocOf: also render, as comments, the doc lines Context.Doc returns for the objects "<pkgpath>.<Name>" (own or another
 	// loaded package's types).  Not modelled: Go-side checks only.
-	DocOf  []string    `json:"doc_of,omitempty"`
+	DocOf []string `json:"doc_of,omitempty"`
+	// Probe: also render, as comments, what the queries of the run's shared Universe answer for "<pkgpath>.*" (every
+	// function, type, method and constant of that loaded package: ResultsOf, MethodsOf, Doc, Comment, Imports) or for
+	// "<pkgpath>.<Name>" (one function or type).  Not modelled: Go-side checks only.  probe.go.
+	Probe  []string    `json:"probe,omitempty"`
 	Defers []DeferStep `json:"defers,omitempty"`
 }
 
@@ -225,7 +237,10 @@ type Gen struct {
 	// reference fields (a map and a pointer used for the per-package bookkeeping) instead of being a zero value; the
 	// instance gengo creates per package is a zero value, so GenerateType allocates them lazily.  Same behaviour as
 	// the zero-prototype generators when every package really gets a fresh instance.
-	Proto bool            `json:"proto,omitempty"`
+	Proto bool `json:"proto,omitempty"`
+	// Kind: "" = a struct with value fields; "map" | "slice" | "int": the generator's underlying type is not a struct, the
+	// value itself is the bookkeeping (kinds.go).  Takes precedence over Proto.
+	Kind  string          `json:"kind,omitempty"`
 	Steps map[string]Step `json:"steps,omitempty"` // key: "<pkgpath> <type>"
 }
 
@@ -243,9 +258,9 @@ type Job struct {
 	// Gate: if set, the child writes <out>.ready after NewContext and waits for this file to appear before it calls
 	// Execute (so that a tracer can be attached to exactly the Execute phase).
 	Gate string `json:"gate,omitempty"`
-	// Workspace: the module lies in a go.work workspace; the child is started without GOFLAGS (-mod=mod is rejected in
+	// Work: the module lies in a go.work workspace; the child is started without GOFLAGS (-mod=mod is rejected in
 	// workspace mode) and without GOWORK (the go command finds go.work by walking up from Dir).
-	Workspace bool `json:"workspace,omitempty"`
+	Work bool `json:"work,omitempty"`
 }
 
 type Event struct {
@@ -377,6 +392,9 @@ func (s *state) call(name string, c gengo.Context, pkg, ty string) error {
 	}
 	for _, ref := range st.DocOf {
 		body += docOf(c, ref)
+	}
+	for _, ref := range st.Probe {
+		body += probeOf(c, ref)
 	}
 	if body != "" {
 		c.Render(snippet.Block(body))
@@ -533,6 +551,9 @@ func (g *anewer) GenerateAliasType(c gengo.Context, n *types.Alias) error {
 }
 
 func prototype(i int, g Gen) gengo.Generator {
+	if p := kindPrototype(i, g); p != nil {
+		return p
+	}
 	if g.CustomNew {
 		if g.Alias {
 			return &anewer{newer{name: g.Name}}
@@ -806,7 +827,7 @@ func RunChild(job Job, scratch string, wrapper ...string) RunResult {
 	var stderr, stdout bytes.Buffer
 	cmd.Stderr, cmd.Stdout = &stderr, &stdout
 	cmd.Dir = scratch
-	if job.Workspace {
+	if job.Work {
 		cmd.Env = workspaceEnv(os.Environ())
 	}
 	err := cmd.Run()
